@@ -30,29 +30,36 @@ theorem answered_at_most_once (cap : Nat) (ls : List Label) (s : Cl) (h : run (i
 
 /-- **Exactly once.** Once the connection is done (Start has returned), every Send call made
 so far — before, during or after the shutdown — has been completed exactly once, and nothing is
-left in a queue, in the writer's hand or inside Send. -/
+left in a queue, in the writer's hand or inside Send; a Send call that is still waiting for its turn
+is answered as soon as it takes it (`waiting_send_after_done_answered`: the turn is free). -/
 theorem all_answered_when_done (cap : Nat) (ls : List Label) (s : Cl) (h : run (init cap) ls = some s)
-    (hd : s.done = true) : places s = [] ∧ ∀ id ∈ s.accepted, (ansIds s).count id = 1 := by
+    (hd : s.done = true) : places s = s.waiting ∧ ∀ id ∈ s.accepted, id ∉ s.waiting → (ansIds s).count id = 1 := by
   have hi := inv_run ls _ s (inv_init cap) h
   have hfin := hi.doneIff.mp hd
   have hq := hi.finishedEmpty hfin
   have hw := hi.writerGone (Or.inr (Or.inr hfin))
   have hl := hi.drainedNoLocked (hi.drainedIff.mpr (Or.inr hfin))
-  have hpl : places s = [] := by simp [places, hl, hq.1, hq.2, inWriter, hw]
+  have hpl : places s = s.waiting := by simp [places, hl, hq.1, hq.2, inWriter, hw]
   refine ⟨hpl, ?_⟩
-  intro id hid
+  intro id hid hnw
   have hp := hi.part id
   have hf := hi.fresh id
   have hpos : 0 < s.accepted.count id := List.count_pos_iff.mpr hid
+  have hz : s.waiting.count id = 0 := List.count_eq_zero.mpr hnw
   unfold cnt at hp
-  rw [hpl] at hp
-  simp at hp
+  rw [hpl, hz] at hp
   omega
 
-/-- a Send call that arrives after the drain is answered on the spot -/
-theorem send_after_done_answered (s : Cl) (id : Nat) (hd : s.drained = true) (hf : id ∉ s.accepted) :
-    ∃ s', step s (.sendBegin id) = some s' ∧ (id, How.error) ∈ s'.answered ∧ s'.locked = s.locked := by
-  refine ⟨answer { s with accepted := id :: s.accepted } id .error, by simp [step, hf, hd], ?_, rfl⟩
+/-- a Send call that arrives after the drain waits for its turn like every other -/
+theorem send_after_done_accepted (s : Cl) (id : Nat) (hf : id ∉ s.accepted) :
+    ∃ s', step s (.sendBegin id) = some s' ∧ id ∈ s'.waiting := by
+  refine ⟨{ s with accepted := id :: s.accepted, waiting := id :: s.waiting }, by simp [step, hf], by simp⟩
+
+/-- … and after the drain the turn is free and whoever takes it is answered on the spot -/
+theorem waiting_send_after_done_answered (s : Cl) (id : Nat) (hi : Client.Inv s) (hd : s.drained = true) (hw : id ∈ s.waiting) :
+    ∃ s', step s (.turnTake id) = some s' ∧ (id, How.error) ∈ s'.answered := by
+  have hl := hi.drainedNoLocked hd
+  refine ⟨answer { s with waiting := s.waiting.erase id } id .error, by simp [step, hw, hl, hd], ?_⟩
   simp [answer]
 
 /-! ### termination: nobody waits for ever -/
@@ -69,7 +76,7 @@ def wS : SPc → Nat | .waitReader => 5 | .waitWriter => 4 | .lockDrain => 3 | .
 
 /-- a bound on the work the connection's goroutines can still do without new input -/
 def mu (s : Cl) : Nat :=
-  10 * s.locked.length + 8 * s.pending.length + wW s.writer + 2 * s.processing.length + wR s.reader + wS s.starter
+  12 * s.waiting.length + 10 * s.locked.length + 8 * s.pending.length + wW s.writer + 2 * s.processing.length + wR s.reader + wS s.starter
 
 theorem length_erase_of_mem' (l : List Nat) (a : Nat) (h : a ∈ l) : (l.erase a).length + 1 = l.length := by
   have := List.length_erase_of_mem h
@@ -96,6 +103,31 @@ theorem internal_step_decreases (s s' : Cl) (l : Label) (hl : internal l = true)
     by_cases hc : a ∈ s.locked ∧ s.quit = true
     · rw [if_pos hc] at hs; injection hs with hs; subst hs
       have := length_erase_of_mem' s.locked a hc.1
+      simp only [mu, answer]; omega
+    · simp [hc] at hs
+  | turnTake a =>
+    simp only [step] at hs
+    by_cases hc : a ∈ s.waiting ∧ s.locked = []
+    · rw [if_pos hc] at hs
+      have := length_erase_of_mem' s.waiting a hc.1
+      by_cases hd : s.drained = true
+      · rw [if_pos hd] at hs; injection hs with hs; subst hs
+        simp only [mu, answer]; omega
+      · rw [if_neg hd] at hs; injection hs with hs; subst hs
+        simp only [mu, hc.2, List.length_nil, List.length_cons]; omega
+    · simp [hc] at hs
+  | turnQuit a =>
+    simp only [step] at hs
+    by_cases hc : a ∈ s.waiting ∧ s.quit = true
+    · rw [if_pos hc] at hs; injection hs with hs; subst hs
+      have := length_erase_of_mem' s.waiting a hc.1
+      simp only [mu, answer]; omega
+    · simp [hc] at hs
+  | turnAbort a =>
+    simp only [step] at hs
+    by_cases hc : a ∈ s.waiting ∧ a ∈ s.abortable
+    · rw [if_pos hc] at hs; injection hs with hs; subst hs
+      have := length_erase_of_mem' s.waiting a hc.1
       simp only [mu, answer]; omega
     · simp [hc] at hs
   | sendAbort a =>
@@ -315,7 +347,12 @@ theorem progress_after_connection_loss (cap : Nat) (hcap : 0 < cap) (ls : List L
           | cons a rest => exact ⟨.wTake, rfl, by simp [step, hw, hp]⟩
           | nil =>
             cases hl : s.locked with
-            | nil => simp [places, hl, hp, hpr, inWriter, hw] at hfl
+            | nil =>
+              cases hwt : s.waiting with
+              | nil => simp [places, hwt, hl, hp, hpr, inWriter, hw] at hfl
+              | cons a rest =>
+                refine ⟨.turnTake a, rfl, ?_⟩
+                by_cases hd : s.drained = true <;> simp [step, hwt, hl, hd]
             | cons a rest => exact ⟨.sendEnq a, rfl, by simp [step, hl, hp, hcapS, hcap]⟩
 
 /-! ### the defects that were repaired, as theorems about the old behaviour -/
@@ -335,7 +372,7 @@ def runWith (f : Cl → Label → Option Cl) (s : Cl) : List Label → Option Cl
 
 theorem old_writer_drops_request :
     ∃ s, runWith stepOldHandoffQuit (init 4)
-      [.sendBegin 0, .sendEnq 0, .wTake, .wEncodeOk, .stop, .wHandoffQuit, .rDecodeErr, .sReaderGone,
+      [.sendBegin 0, .turnTake 0, .sendEnq 0, .wTake, .wEncodeOk, .stop, .wHandoffQuit, .rDecodeErr, .sReaderGone,
        .sWriterGone, .sLock, .sDrainDone] = some s ∧ s.done = true ∧ (ansIds s).count 0 = 0 :=
   ⟨_, rfl, rfl, by decide⟩
 
@@ -348,17 +385,17 @@ def stepOldNoLock (s : Cl) : Label → Option Cl
 
 theorem old_send_races_drain :
     ∃ s, runWith stepOldNoLock (init 4)
-      [.sendBegin 0, .stop, .rDecodeErr, .sReaderGone, .wQuitTop, .sWriterGone, .sLock, .sDrainDone, .sendEnq 0]
+      [.sendBegin 0, .turnTake 0, .stop, .rDecodeErr, .sReaderGone, .wQuitTop, .sWriterGone, .sLock, .sDrainDone, .sendEnq 0]
       = some s ∧ s.done = true ∧ (ansIds s).count 0 = 0 ∧ s.pending = [0] :=
   ⟨_, rfl, rfl, by decide, rfl⟩
 
 /-- the same two histories on the model of the code as it is now -/
 example : ∃ s, run (init 4)
-    [.sendBegin 0, .sendEnq 0, .wTake, .wEncodeOk, .stop, .wHandoffQuit, .rDecodeErr, .sReaderGone,
+    [.sendBegin 0, .turnTake 0, .sendEnq 0, .wTake, .wEncodeOk, .stop, .wHandoffQuit, .rDecodeErr, .sReaderGone,
      .sWriterGone, .sLock, .sDrainDone] = some s ∧ s.done = true ∧ (ansIds s).count 0 = 1 :=
   ⟨_, rfl, rfl, by decide⟩
 example : run (init 4)
-    [.sendBegin 0, .stop, .rDecodeErr, .sReaderGone, .wQuitTop, .sWriterGone, .sLock] = none := rfl
+    [.sendBegin 0, .turnTake 0, .stop, .rDecodeErr, .sReaderGone, .wQuitTop, .sWriterGone, .sLock] = none := rfl
 
 /-! ### split requests -/
 
@@ -407,7 +444,7 @@ example : (childrenDone { wait := 2 } 2).rawAnswered = 1 := by decide
 /-- (since 9cd2b0b) a request resent by another connection's read loop carries that connection's quit as `abort`: its Send may give up
 while it waits for room — it is then answered with an error, exactly once, like a Send that sees this connection's own quit.  All the
 theorems above quantify over `sendAbort` as over every other label. -/
-example : ∃ s, run { cap := 0, abortable := [7] } [.sendBegin 7, .sendAbort 7] = some s ∧ s.answered = [(7, .error)] ∧ s.locked = [] :=
+example : ∃ s, run { cap := 0, abortable := [7] } [.sendBegin 7, .turnTake 7, .sendAbort 7] = some s ∧ s.answered = [(7, .error)] ∧ s.locked = [] :=
   ⟨_, rfl, rfl, rfl⟩
 
 /-! ## tie to the code -/
@@ -510,7 +547,7 @@ theorem nothing_left_in_the_write_buffer (cap : Nat) (ls : List Label) (s : Cl) 
 is not flushed), request 1 is then answered by a filter (a command banned under compression), and
 the writer goes back to sleep with request 0 still in its buffer: the backend never sees it. -/
 theorem old_filter_stop_leaves_a_request_unflushed :
-    ∃ s s', run (init 4) [.sendBegin 0, .sendEnq 0, .sendBegin 1, .sendEnq 1, .wTake, .wEncodeOk, .wHandoff, .wTake] = some s ∧
+    ∃ s s', run (init 4) [.sendBegin 0, .turnTake 0, .sendEnq 0, .sendBegin 1, .turnTake 1, .sendEnq 1, .wTake, .wEncodeOk, .wHandoff, .wTake] = some s ∧
       oldFilterStop s = some s' ∧ s'.writer = .top ∧ s'.pending = [] ∧ s'.unflushed = [0] ∧ s'.processing = [0] := by
   refine ⟨_, _, rfl, rfl, ?_⟩
   decide
@@ -587,7 +624,8 @@ end SamVerif.Props.C02
 
 #print axioms SamVerif.Props.C02.answered_at_most_once
 #print axioms SamVerif.Props.C02.all_answered_when_done
-#print axioms SamVerif.Props.C02.send_after_done_answered
+#print axioms SamVerif.Props.C02.send_after_done_accepted
+#print axioms SamVerif.Props.C02.waiting_send_after_done_answered
 #print axioms SamVerif.Props.C02.internal_step_decreases
 #print axioms SamVerif.Props.C02.progress_after_quit
 #print axioms SamVerif.Props.C02.progress_after_connection_loss
